@@ -113,7 +113,9 @@ class FakeWriter:
         self.decoder = decoder
         self.closing = False
         self.hang_close = hang_close
+        self.hang_drain = False
         self._closed_fut = None
+        self._drain_waiters = []
 
     def write(self, data):
         if isinstance(data, (bytes, bytearray)) and self.decoder is not None:
@@ -121,7 +123,23 @@ class FakeWriter:
         self.frames.append(data)
 
     async def drain(self):
+        if self.hang_drain:
+            # a full socket buffer: every writer waits until the transport resumes (FIFO, as asyncio's _drain_helper)
+            fut = asyncio.get_running_loop().create_future()
+            self._drain_waiters.append(fut)
+            await fut
         return None
+
+    def release(self):
+        """the socket becomes writable again / finishes closing"""
+        self.hang_drain = False
+        self.hang_close = False
+        for fut in self._drain_waiters:
+            if not fut.done():
+                fut.set_result(None)
+        self._drain_waiters = []
+        if self._closed_fut is not None and not self._closed_fut.done():
+            self._closed_fut.set_result(None)
 
     def is_closing(self):
         return self.closing
